@@ -6,6 +6,32 @@ p = os.path.join(V, "DESIGN.md")
 s = open(p).read()
 s6 = s.index("## 6. ")
 s7 = s.index("## 7. Register of genuine defects")
+
+
+def section6b():
+    import json
+    S = os.path.join(V, "seeded")
+    out = [open(os.path.join(V, "design", "_section6b_head.md")).read()]
+    out.append("| change | written to break | result per check | what it needs / note |\n|---|---|---|---|")
+    for n in sorted(os.listdir(S)):
+        mp, rp = os.path.join(S, n, "meta.json"), os.path.join(S, n, "result.json")
+        if not os.path.exists(mp):
+            continue
+        m = json.load(open(mp))
+        cells = "not run"
+        if os.path.exists(rp):
+            r = json.load(open(rp)).get("checks", {})
+            cs = []
+            for c, v in r.items():
+                if not isinstance(v, dict):
+                    continue
+                cs.append("%s %s" % (c, {"replay": "replay", "no-failing-input-found": "no-input"}.get(v.get("violation"), "-")))
+            cells = ", ".join(cs) or "skipped"
+        note = (m.get("note") or m.get("needs") or "").replace("|", "/").replace("\n", " ")
+        out.append("| %s | %s | %s | %s |" % (n, m.get("breaks"), cells, note[:260]))
+    return "\n".join(out) + "\n\n"
+
+
 head = open(os.path.join(V, "design", "_section6_head.md")).read()
 parts = [head]
 for g in ("codec", "browser", "responder", "registry", "life", "sched", "safety", "hostres"):
@@ -16,6 +42,6 @@ for g in ("codec", "browser", "responder", "registry", "life", "sched", "safety"
     # demote headings by two levels
     t = re.sub(r"^(#+) ", lambda m: "#" * (len(m.group(1)) + 2) + " ", t, flags=re.M)
     parts.append(t.rstrip() + "\n")
-new6 = "\n".join(parts) + "\n\n"
+new6 = "\n".join(parts) + "\n\n" + section6b()
 open(p, "w").write(s[:s6] + new6 + s[s7:])
 print("section 6 rebuilt:", len(new6), "chars")
